@@ -34,16 +34,19 @@ strict and reported to the lead:
       overlap; the function appends its empty coordinate list and `_min_max_coord` fails on `c.min()`.  Happens for most pairs
       of non-trivial tessellations, e.g. the unit square cut along y=x versus the 2x2 grid with every cell cut along the same
       diagonal.
-  (b) "match_2d: '...' rows/columns sum to one" (mostly "sheared plane z=x+2y, sums fall short"; in thorough also "plane z=0,
-      some sum exceeds 1") and "triangulations: overlaps of a ...-tessellation cell sum to its measure" / "rotated
-      coordinates, ..." (thorough only): triangles of the two grids that share part of an edge have, after match_2d's
-      translation/rotation to the plane (or after any rotation of the input), edges that are collinear only up to rounding.
-      Two mechanisms: (b1) shapely returns a GeometryCollection (Polygon + LineString) and `triangulations` keeps only results
-      with `isinstance(isect, Polygon)`, so the whole overlap of that pair is dropped (sums fall short by up to 35 %);
-      (b2) GEOS itself returns a wrong polygon for such a pair (vertex-order dependent), the overlap is attributed to the
-      neighbouring cell (one sum exceeds, one falls short).  (b2) is a robustness failure of the trusted library; (b1) is in
-      porepy.  Because the 2-D family is seeded, other seeds may show the same defect under the sibling signature
-      ("some sum exceeds ..." instead of "sums fall short", "plane z=0" instead of "sheared plane").
+  (b) "match_2d: 'averaged' rows sum to one" / "match_2d: 'integrated' columns sum to one" with signatures
+      "plane z=0; only cell pairs with touching boundaries deviate" and "sheared plane z=x+2y; only cell pairs ...", and
+      "triangulations: overlaps of a first-/second-tessellation cell sum to its measure" / "rotated coordinates; only cell pairs
+      with touching boundaries deviate" (which of these nine (obligation, signature) pairs show up depends on the seed; seed 0
+      quick: the two sheared-plane ones).  For every failing case the sidecar recomputes the overlap of every cell pair exactly
+      (Sutherland-Hodgman in Fractions) and classifies the deviating pairs: on the unchanged tree ONLY pairs whose boundaries touch
+      (shared vertex, vertex on an edge, collinear overlapping edges) deviate.  After match_2d's translation/rotation to the plane
+      (or any rotation of the input) such contacts hold only up to rounding.  Two mechanisms: (b1) shapely returns a
+      GeometryCollection (Polygon + LineString/Point) and `triangulations` keeps only `isinstance(isect, Polygon)`, so the whole
+      overlap of that pair is dropped (a row sum of 0.65 was seen); (b2) GEOS itself returns a wrong polygon for such a pair
+      (vertex-order dependent; the overlap goes to the neighbouring cell: one sum exceeds, one falls short) -- (b2) is a robustness
+      failure of the trusted library, (b1) is porepy's.  A bug that affects cell pairs in general position gets the signature
+      "...; cell pairs in general position deviate" (mutants M3, M4 below), so listing (b) as known does not mask it.
 
 Detection power (scratch copy of /repo/src under /var/tmp, POREPY_SRC=<copy>, one bug at a time, quick tier; each gave
 exit 1 with VIOLATION lines whose (obligation, signature) do not occur on the unchanged tree):
@@ -329,6 +332,89 @@ def check_surface(isect, mappings, cell_areas_per_set, what):
     return fails
 
 
+def _clip2(poly, a, b):
+    """part of the convex polygon on the left of (or on) the directed line a->b; exact"""
+    out = []
+    k = len(poly)
+    side = lambda q: (b[0] - a[0]) * (q[1] - a[1]) - (b[1] - a[1]) * (q[0] - a[0])  # noqa: E731
+    for i in range(k):
+        p, q = poly[i], poly[(i + 1) % k]
+        sp, sq = side(p), side(q)
+        if sp >= 0:
+            out.append(p)
+        if (sp > 0 > sq) or (sq > 0 > sp):
+            t = Fraction(sp) / (sp - sq)
+            out.append((p[0] + t * (q[0] - p[0]), p[1] + t * (q[1] - p[1])))
+    return out
+
+
+def exact_overlap(pa, ta, pb, tb):
+    """exact area of the intersection of two counter-clockwise triangles"""
+    poly = [pa[v] for v in ta]
+    B = [pb[v] for v in tb]
+    for i in range(3):
+        if len(poly) < 3:
+            return Fraction(0)
+        poly = _clip2(poly, B[i], B[(i + 1) % 3])
+    if len(poly) < 3:
+        return Fraction(0)
+    return sum(poly[i][0] * poly[(i + 1) % len(poly)][1] - poly[(i + 1) % len(poly)][0] * poly[i][1] for i in range(len(poly))) / 2
+
+
+def share_part_of_an_edge(pa, ta, pb, tb):
+    """some edge of triangle a and some edge of triangle b are collinear and overlap along a positive length"""
+    for i in range(3):
+        a0, a1 = pa[ta[i]], pa[ta[(i + 1) % 3]]
+        d = (a1[0] - a0[0], a1[1] - a0[1])
+        L = d[0] * d[0] + d[1] * d[1]
+        for j in range(3):
+            b0, b1 = pb[tb[j]], pb[tb[(j + 1) % 3]]
+            if d[0] * (b0[1] - a0[1]) - d[1] * (b0[0] - a0[0]) != 0 or d[0] * (b1[1] - a0[1]) - d[1] * (b1[0] - a0[0]) != 0:
+                continue
+            t0 = Fraction((b0[0] - a0[0]) * d[0] + (b0[1] - a0[1]) * d[1]) / L
+            t1 = Fraction((b1[0] - a0[0]) * d[0] + (b1[1] - a0[1]) * d[1]) / L
+            if max(Fraction(0), min(t0, t1)) < min(Fraction(1), max(t0, t1)):
+                return True
+    return False
+
+
+def boundaries_touch(pa, ta, pb, tb):
+    """a vertex of one triangle lies on the boundary of the other (incl. shared vertices), or two edges overlap collinearly"""
+    if share_part_of_an_edge(pa, ta, pb, tb):
+        return True
+
+    def on_seg(q, a, b):
+        d, w = (b[0] - a[0], b[1] - a[1]), (q[0] - a[0], q[1] - a[1])
+        if d[0] * w[1] - d[1] * w[0] != 0:
+            return False
+        c = w[0] * d[0] + w[1] * d[1]
+        return 0 <= c <= d[0] * d[0] + d[1] * d[1]
+
+    for (P, T, Q, U) in ((pa, ta, pb, tb), (pb, tb, pa, ta)):
+        for v in T:
+            if any(on_seg(P[v], Q[U[k]], Q[U[(k + 1) % 3]]) for k in range(3)):
+                return True
+    return False
+
+
+def classify_discrepancy(tess1, tess2, got):
+    """got: dict (i,j) -> overlap area returned (absent = 0).  Which cell pairs deviate from the exact overlap?"""
+    (p1, t1), (p2, t2) = tess1, tess2
+    other = 0
+    shared = 0
+    for i, ta in enumerate(t1):
+        for j, tb in enumerate(t2):
+            ex = exact_overlap(p1, ta, p2, tb)
+            if abs(got.get((i, j), 0.0) - float(ex)) > 1e-11:
+                if boundaries_touch(p1, ta, p2, tb):
+                    shared += 1
+                else:
+                    other += 1
+    if other:
+        return "cell pairs in general position deviate"
+    return "only cell pairs with touching boundaries deviate" if shared else "no single cell pair deviates"
+
+
 def _ser(p, t):
     return {"points": [[str(x), str(y)] for x, y in p], "triangles": [list(x) for x in t]}
 
@@ -361,7 +447,14 @@ def case_triangulations(pp, tess1, tess2, ang, flip):
         ov = pp.intersections.triangulations(P1, P2, T1, T2)
     except Exception as ex:  # noqa: BLE001
         return [("triangulations: does not raise on two triangulations of one square", f"{coords}: {type(ex).__name__}", f"{type(ex).__name__}: {ex}")]
-    return [(f"triangulations: {CL[c]}", f"{coords}, {SYMPTOM[0]}", d) for c, d in check_overlaps(ov, a1, a2, 1)[:3]]
+    fails = check_overlaps(ov, a1, a2, 1)[:3]
+    if not fails:
+        return []
+    got = {}
+    for i, j, v in ov:
+        got[(int(i), int(j))] = got.get((int(i), int(j)), 0.0) + float(v)
+    cls = classify_discrepancy(tess1, tess2, got)
+    return [(f"triangulations: {CL[c]}", f"{coords}; {cls}", d) for c, d in fails]
 
 
 def case_surface(pp, tesss, ang, simplex):
@@ -389,13 +482,26 @@ def make_grid(pp, tess, sheared):
     return g
 
 
-def case_match_2d(pp, g_new, g_old, sheared, scaling):
+def case_match_2d(pp, g_new, g_old, sheared, scaling, tess_new=None, tess_old=None):
+    import numpy as np
+
     plane = "sheared plane z=x+2y" if sheared else "plane z=0"
     try:
         M = pp.match_grids.match_2d(g_new, g_old, tol=1e-8, scaling=scaling)
     except Exception as ex:  # noqa: BLE001
         return [("match_2d: does not raise on two triangulations of one square", f"{plane}: {type(ex).__name__}", f"{type(ex).__name__}: {ex}")]
-    return [(ob, plane + (f", {SYMPTOM[0]}" if "sum to one" in ob else ""), d) for ob, d in check_matrix(M, scaling, "match_2d")]
+    fails = check_matrix(M, scaling, "match_2d")
+    if not fails:
+        return []
+    cls = ""
+    if tess_new is not None:
+        # back to overlap areas in the unit square's own coordinates (the shear multiplies every area by sqrt(6))
+        A = np.asarray(M.todense(), dtype=float)
+        a_new = [float(Fraction(tri_area2(tess_new[0], t), 2)) for t in tess_new[1]]
+        a_old = [float(Fraction(tri_area2(tess_old[0], t), 2)) for t in tess_old[1]]
+        got = {(i, j): A[i, j] * (a_new[i] if scaling == "averaged" else a_old[j]) for i in range(A.shape[0]) for j in range(A.shape[1]) if A[i, j] != 0}
+        cls = "; " + classify_discrepancy(tess_new, tess_old, got)
+    return [(ob, plane + cls, d) for ob, d in fails]
 
 
 def sweep_2d(rep, pp, quick):
@@ -442,7 +548,7 @@ def sweep_2d(rep, pp, quick):
                               detail=f"{n1} vs {n2}: {detail}")
             for sheared in ((False, True) if k % 5 == 0 else (False,)):
                 for scaling in ("averaged", "integrated"):
-                    for ob, sig, detail in case_match_2d(pp, grid(i, sheared), grid(j, sheared), sheared, scaling):
+                    for ob, sig, detail in case_match_2d(pp, grid(i, sheared), grid(j, sheared), sheared, scaling, (p1, t1), (p2, t2)):
                         rep.violation(ob, sig, inputs=dict(base, fn="match_2d", sheared=sheared, scaling=scaling), detail=f"{n1} vs {n2}: {detail}")
 
 
@@ -510,7 +616,7 @@ def replay(data):
                 fails = case_surface(pp, tesss, inp.get("angle"), bool(inp.get("simplex")))
             else:
                 sh = bool(inp.get("sheared"))
-                fails = case_match_2d(pp, make_grid(pp, tesss[0], sh), make_grid(pp, tesss[1], sh), sh, inp["scaling"])
+                fails = case_match_2d(pp, make_grid(pp, tesss[0], sh), make_grid(pp, tesss[1], sh), sh, inp["scaling"], tesss[0], tesss[1])
         for f in fails:
             print("replay:", f)
         return any(f[0] == data.get("obligation") for f in fails)
